@@ -827,10 +827,10 @@ fn enabled_c17(w: &RouterWorld, cfg: &Cfg, v: &mut Vec<(Act, u8)>) {
             v.push((Act::Burst { c: p, t: 0, qos: 0, n: 220 }, 0));
         }
     }
-    let members: &[u8] = if cfg.variant == 2 { &[1, 2] } else { &[1, 2, 3] };
+    let members: &[u8] = if matches!(cfg.variant, 2 | 4) { &[1, 2] } else { &[1, 2, 3] };
     for &c in members {
         if live(w, c) {
-            let q = if cfg.variant == 1 { 1 } else { c % 2 };
+            let q = if matches!(cfg.variant, 1 | 4) { 1 } else { c % 2 };
             // joining twice (a plain re-subscribe) is legal
             v.push((Act::Sub { c, f: 0, qos: q }, 0));
             if active_sub(w, c, &cfg.filters[0]) {
@@ -853,6 +853,9 @@ fn enabled_c17(w: &RouterWorld, cfg: &Cfg, v: &mut Vec<(Act, u8)>) {
             }
             if !w.manual {
                 v.push((Act::DiscPkt { c }, 0));
+                if cfg.variant == 4 {
+                    v.push((Act::Drop { c }, 0));
+                }
             }
             if cfg.variant == 2 {
                 let stalled = w.clients[c as usize].link.as_ref().is_some_and(|l| l.stalled);
@@ -863,7 +866,8 @@ fn enabled_c17(w: &RouterWorld, cfg: &Cfg, v: &mut Vec<(Act, u8)>) {
                 }
             }
         } else if can_connect(w, c) {
-            v.push((Act::Connect { c, clean: true, will: 0 }, 0));
+            // variant 4: member c1 keeps a persistent session
+            v.push((Act::Connect { c, clean: !(cfg.variant == 4 && c == 1), will: 0 }, 0));
         }
     }
     ack_actions(w, members, v);
